@@ -150,6 +150,11 @@ def classifier_arms(prog, pvn, b):
     return None
 
 
+def error_blocks_c12(b):
+    from engines import error_blocks
+    return error_blocks(b)
+
+
 def run(ck, prog, ctx):
     ck.rule("TAINT", "source-to-sink: unchecked append sink reached only by iterated group elements (DESIGN 3.14)")
     ck.rule("DOM", "search-arm dominance and returned flag (DESIGN 3.6/3.10)")
@@ -422,7 +427,32 @@ def run(ck, prog, ctx):
             continue
         msg = ("%s appends unchecked an id %s" % (b.short, ("taken from iterating a group" if iterated else "taken from a group's id vector by index") if ok else ("that is the caller-supplied `%s` (order/uniqueness not checked)" % bad_params[0] if bad_params else "that does not come from iterating a group")))
         ck.ob("TAINT", "append/%s/%d" % (base, i), ok, msg, where=b.where(t.line))
-    ck.floor("TAINT", "unchecked append sites", len(sinks), 2)
+    ck.floor("TAINT", "unchecked append sites", len(sinks), 2, soft=True)
+    # ---- INSERTPOS: an id put into a sorted, duplicate-free vector at its `partition_point` is put there only if it is not there already.
+    # `partition_point` says where an id BELONGS, not whether it is present (binary_search's Err arm says both): an unconditional
+    # `v.insert(v.partition_point(|x| *x < id), id)` stores an id a second time.
+    from engines import positive_edges as _pe12
+    for ib in sorted(prog.production(), key=lambda z: z.id):
+        if ib.test or not (ib.file or "").startswith("src/"):
+            continue
+        for fb in [ib] if ib.kind in ("Fn", "AssocFn", "Closure") else []:
+            for ibi, it in fb.calls():
+                if it.callee.method != "insert" or len(it.args) != 3 or not re.search(r"Vec(::)?<", it.callee.def_args or it.callee.name or ""):
+                    continue
+                pat = pvn.of_operand(fb, it.args[1])
+                pps = [a for a in pat if a[0] == "call" and a[3] == fb.id and a[1].rsplit("::", 1)[-1].split("::<")[0] == "partition_point"]
+                if not pps or not re.search(r"HpoTermId", it.callee.def_args or ""):
+                    continue
+                # a dominating (in)equality between the element at that position and the id
+                guarded = False
+                for gbi, gt in fb.calls():
+                    if gt.callee.method in ("eq", "ne") and len(gt.args) == 2:
+                        gat = [pvn.of_operand(fb, a_) for a_ in gt.args]
+                        reads_pos = any(any(a[0] == "call" and a[3] == fb.id and a[1].rsplit("::", 1)[-1].split("::<")[0] in ("get", "index", "get_unchecked") for a in g_) and any(a == pps[0] for a in g_) for g_ in gat)
+                        if reads_pos and any(fb.edge_dominates((sb_, tg_), ibi) for sb_ in sorted(fb.reach) if fb.blocks[sb_].term.k == "switch" and any(a[0] == "call" and a[3] == fb.id and a[4] == gbi for a in pvn.of_operand(fb, fb.blocks[sb_].term.discr)) for tg_ in fb.blocks[sb_].term.successors()):
+                            guarded = True
+                ck.ob("TAINT", "insert-at-partition-point/%s" % fb.short, guarded, "%s inserts an id at its `partition_point` %s" % (fb.short, "only after comparing it with the id that stands there" if guarded else
+                      "WITHOUT testing whether the id that stands there is the same: an id that is already present is stored twice (`partition_point` finds the position, not the presence)"), where=fb.where(it.line))
     # bulk appends: a whole slice / group appended to an id vector keeps it sorted and duplicate free only if the vector is
     # still empty, or if its last id is STRICTLY below the first appended id
     BULK = {"extend_from_slice", "extend", "append", "insert_many", "insert_from_slice", "extend_from_within"}
@@ -471,6 +501,48 @@ def run(ck, prog, ctx):
                     ck.ob("TAINT", "bulk-append/%s" % b.short, True, "%s appends the ids above the searched position after the new id" % b.short, where=b.where(t.line))
                 else:
                     ck.undecided("TAINT", "bulk-append/%s" % b.short, "%s appends ids under the not-found arm of a binary search, in a shape that is not recognised" % b.short, where=b.where(t.line))
+                continue
+            # (a') normalised afterwards: behind the append every way to a normal return passes a `dedup`, and no way reaches a `dedup` without
+            # having passed a `sort*` or the true edge of `is_sorted()` (which says the vector needs no sort, NOT that it has no duplicates:
+            # `is_sorted` is non-strict).  `v.extend(..); if !v.is_sorted() { v.sort_unstable(); } v.dedup();`
+            sort_bbs = {x_ for x_, t_ in b.calls() if t_.callee.method in ("sort", "sort_unstable", "sort_by", "sort_by_key", "sort_unstable_by", "sort_unstable_by_key") and b.dominates(bi, x_)}
+            dedup_bbs = {x_ for x_, t_ in b.calls() if t_.callee.method in ("dedup", "dedup_by", "dedup_by_key") and b.dominates(bi, x_)}
+            if dedup_bbs and sort_bbs:
+                sorted_edges = {e_ for x_, t_ in b.calls() if t_.callee.method == "is_sorted" and b.dominates(bi, x_) for e_ in positive_edges(b, pvn, x_)}
+                errs_ = error_blocks_c12(b)
+                # `is_sorted_by(|a, b| a < b)`: STRICTLY ascending - on its true edge the vector is sorted and free of repeats
+                strict_edges = set()
+                for x_, t_ in b.calls():
+                    if t_.callee.method in ("is_sorted_by", "is_sorted_by_key") and b.dominates(bi, x_) and len(t_.args) > 1:
+                        cbs_ = prog.bodies.get(pv.closure_of_operand(b, t_.args[1]) or "")
+                        if cbs_ is not None and any(ct_.callee.method == "lt" for fb_ in prog.family(cbs_) for _, ct_ in fb_.calls()) or (cbs_ is not None and any(st_.k == "assign" and st_.rv["k"] == "bin" and st_.rv["op"] == "Lt" for fb_ in prog.family(cbs_) for _, st_ in fb_.stmts())):
+                            strict_edges |= set(positive_edges(b, pvn, x_))
+                sorted_edges |= strict_edges
+                # every normal way out passes a dedup
+                seen_, work_, misses_dedup = set(), [(bi, y_) for y_ in b.succ[bi]], False
+                while work_:
+                    x_, y_ = work_.pop()
+                    if y_ in seen_ or y_ in dedup_bbs or y_ in errs_ or (x_, y_) in strict_edges:
+                        continue
+                    seen_.add(y_)
+                    if b.blocks[y_].term.k == "return":
+                        misses_dedup = True
+                    work_.extend((y_, z_) for z_ in b.succ[y_])
+                # no dedup is reached without order having been established
+                seen_, work_, unsorted_dedup = set(), [(bi, y_) for y_ in b.succ[bi]], False
+                while work_:
+                    x_, y_ = work_.pop()
+                    if (x_, y_) in sorted_edges or y_ in sort_bbs or y_ in seen_:
+                        continue
+                    if y_ in dedup_bbs:
+                        unsorted_dedup = True
+                        continue
+                    seen_.add(y_)
+                    work_.extend((y_, z_) for z_ in b.succ[y_])
+                okn = not misses_dedup and not unsorted_dedup
+                ck.ob("TAINT", "bulk-append/%s" % b.short, okn, "%s appends a whole id vector and %s" % (b.short, "re-establishes order and uniqueness behind it (sort unless already sorted, then dedup, on every way out)" if okn else (
+                    "can return WITHOUT de-duplicating: the `dedup` does not stand on every way out (an `is_sorted()` test says that no sort is needed, not that no id is repeated - equal neighbours are `sorted`)" if misses_dedup else
+                    "de-duplicates on a way on which the vector was not sorted: `dedup` removes only neighbours")), where=b.where(t.line))
                 continue
             # (b) guarded by last(receiver) < first(appended)
             verdict, how = None, "no ordering test between the last id of the receiver and the first appended id dominates the append"
@@ -581,6 +653,13 @@ def run(ck, prog, ctx):
                 continue
             ordered = bool(sorts) and bool(dedups) and all(any(b.dominates(sb, db) and sb != db for sb, _ in sorts) for db, _ in dedups)
             ok = ordered and any(covers(db) for db, _ in dedups)
+            if not ok and not sorts and not dedups and not (b.exported or b.reachable) and b.kind in ("Fn", "AssocFn") and not b.impl_trait:
+                # a constructor that is not part of the public API and that does not normalise at all (`pub(crate) fn from_sorted(ids: &[HpoTermId])`)
+                # hands the obligation to its callers inside the crate: each of them is listed, none is judged here (what they pass is a vector
+                # they put together with their own means - a sorted, de-duplicated closure with ids inserted at their `partition_point`)
+                cs_ = sorted({cb_.short for cb_, _, _ in prog.callers_of(b.id) if not cb_.test})
+                ck.undecided("TAINT", "construct/%s" % b.short, "%s (crate-private) stores the ids it is given without normalising them: order and uniqueness are its callers' obligation (%s), not decided" % (b.short, ", ".join(cs_) or "no caller"), where=b.where(st.line))
+                continue
             ck.ob("TAINT", "construct/%s" % b.short, ok, "%s stores caller-supplied ids as the group's vector %s" % (b.short, "after sorting and then de-duplicating them" if ok else
                   ("after de-duplicating BEFORE sorting (non-adjacent duplicates survive)" if sorts and dedups and not ordered else "without establishing order and uniqueness on every path (needs sort, then dedup, or checked inserts)")), where=b.where(st.line))
     ck.extra["whole_vector_constructions"] = ncons
